@@ -17,7 +17,9 @@
 package connect
 
 import (
+	"bytes"
 	"errors"
+	"io"
 	"time"
 )
 
@@ -50,4 +52,98 @@ func VerifGRPCPercentDecode(encoded string) string {
 // VerifExtractProtoPath exposes extractProtoPath.
 func VerifExtractProtoPath(url string) string {
 	return extractProtoPath(url)
+}
+
+// VerifYield is one result of envelopeReader.Unmarshal as observed by the
+// verification harness.
+type VerifYield struct {
+	IsMsg    bool   // Unmarshal returned nil; Msg is what the codec stored
+	Msg      []byte //
+	Special  bool   // errSpecialEnvelope; Flags/Data are the stashed envelope
+	Flags    uint8
+	Data     []byte
+	Code     Code // otherwise: the error's code
+	WrapsEOF bool // errors.Is(err, io.EOF)
+}
+
+func verifPool(newDecompressor func() Decompressor, newCompressor func() Compressor) *compressionPool {
+	if newDecompressor == nil || newCompressor == nil {
+		return nil
+	}
+	return newCompressionPool(newDecompressor, newCompressor)
+}
+
+// VerifEnvelopeRecvAll runs an envelopeReader over reader, calling Unmarshal
+// (into a *[]byte, so codec must accept that) until it fails or limit
+// messages were read.
+func VerifEnvelopeRecvAll(
+	reader io.Reader,
+	codec Codec,
+	newDecompressor func() Decompressor,
+	newCompressor func() Compressor,
+	readMaxBytes int,
+	limit int,
+) []VerifYield {
+	envReader := &envelopeReader{
+		reader:          reader,
+		codec:           codec,
+		bufferPool:      newBufferPool(),
+		compressionPool: verifPool(newDecompressor, newCompressor),
+		readMaxBytes:    readMaxBytes,
+	}
+	var yields []VerifYield
+	for i := 0; i < limit; i++ {
+		var msg []byte
+		err := envReader.Unmarshal(&msg)
+		if err == nil {
+			yields = append(yields, VerifYield{IsMsg: true, Msg: append([]byte(nil), msg...)})
+			continue
+		}
+		if errors.Is(err, errSpecialEnvelope) {
+			yield := VerifYield{Special: true, Flags: envReader.last.Flags}
+			if envReader.last.Data != nil {
+				yield.Data = append([]byte(nil), envReader.last.Data.Bytes()...)
+			}
+			yields = append(yields, yield)
+			break
+		}
+		yields = append(yields, VerifYield{Code: err.Code(), WrapsEOF: errors.Is(err, io.EOF)})
+		break
+	}
+	return yields
+}
+
+// VerifEnvelopeWrite marshals msgs (each a *[]byte for codec) through an
+// envelopeWriter and then writes the extra envelope (if extraData is non-nil)
+// with extraFlags through Write. It returns the bytes written and the first
+// error.
+func VerifEnvelopeWrite(
+	writer io.Writer,
+	codec Codec,
+	newDecompressor func() Decompressor,
+	newCompressor func() Compressor,
+	compressMinBytes int,
+	msgs [][]byte,
+	extraFlags uint8,
+	extraData []byte,
+) *Error {
+	envWriter := &envelopeWriter{
+		writer:           writer,
+		codec:            codec,
+		compressMinBytes: compressMinBytes,
+		compressionPool:  verifPool(newDecompressor, newCompressor),
+		bufferPool:       newBufferPool(),
+	}
+	for i := range msgs {
+		if err := envWriter.Marshal(&msgs[i]); err != nil {
+			return err
+		}
+	}
+	if extraData != nil {
+		data := bytes.NewBuffer(append([]byte(nil), extraData...))
+		if err := envWriter.Write(&envelope{Data: data, Flags: extraFlags}); err != nil {
+			return err
+		}
+	}
+	return nil
 }
